@@ -1,18 +1,289 @@
-import Cppcheck.Model.FileLister
+import Cppcheck.Proofs.PathMatch
+import Cppcheck.Proofs.PathCanon
+import Cppcheck.Proofs.FileLister
 /-
-C31 — property theorems (file selection and path matching follow the documented rules).
+C31 — property theorems: file selection and path matching follow the documented rules.
+
+The model (Cppcheck/Model/PathCanon.lean, PathMatch.lean, FileLister.lean) copies lib/pathmatch.h, lib/pathmatch.cpp,
+lib/path.cpp, externals/simplecpp/simplecpp.cpp (`simplifyPath`) and cli/filelister.cpp (POSIX part).  It is parametrised
+by `Variant`: `Variant.fixed` is the code of the working tree (with the repair 4dc0347 = proposed/C31-pathmatch.diff),
+`Variant.old` the code before that repair; the theorems are about `Variant.fixed`, the behaviour before the repair is kept
+as counterexample theorems.  Strings are byte strings (`List Char`) of any length; nothing below is bounded.
 -/
+
+namespace Cppcheck.PathMatch
+open Cppcheck.Wire Cppcheck.PathCanon
+
+/-! ## `PathMatch::match` -/
+
+/-- **termination**: for both variants of the loop and all streams the backtracking loop of `PathMatch::match` returns
+    within `matchFuel` iterations (`matchFuel` = the iteration count `costC` of the search, summed over the restart
+    positions), and its answer is the answer of the recursive search `mC` from some restart position -/
+theorem match_terminates (fx real : Bool) (s t : Str) (ht : NUL ∉ t) :
+    matchStreams fx real s t = some (mC fx real s t || restAny fx real s t) :=
+  matchStreams_eq fx real s t ht
+
+/-- **`pathmatch_eq_spec` (the loop)**: on the reversed canonical pattern `P` and the reversed canonical path `Y` the
+    repaired loop returns `true` exactly if the documented rule `SpecMatch` holds: some part of `Y` that starts at the
+    start of `Y` (the only choice for a "real" pattern) or directly behind a separator and ends at a separator or at the
+    end of `Y` is matched by the glob `P` (`**` any text, `*` any text without separator, `?` one non-separator). -/
+theorem pathmatch_eq_spec (real : Bool) (P Y : Str) (hP : NUL ∉ P) (hY : NUL ∉ Y) (h3 : noTripleStar P = true) :
+    ∃ b, matchStreams true real P.reverse Y.reverse = some b ∧ (b = true ↔ SpecMatch real P Y) := by
+  refine ⟨_, matchStreams_eq true real _ _ (by simpa using hY), ?_⟩
+  exact search_iff_spec true real P Y hP hY (Or.inl rfl) h3
+
+/-- the loop before the repair: the same statement holds exactly for the patterns in which (reading backwards) no star
+    is directly followed by `?` or `*` -/
+theorem pathmatch_eq_spec_before_repair (real : Bool) (P Y : Str) (hP : NUL ∉ P) (hY : NUL ∉ Y)
+    (h3 : noTripleStar P = true) (hs : starOkR P.reverse = true) :
+    ∃ b, matchStreams false real P.reverse Y.reverse = some b ∧ (b = true ↔ SpecMatch real P Y) := by
+  refine ⟨_, matchStreams_eq false real _ _ (by simpa using hY), ?_⟩
+  exact search_iff_spec false real P Y hP hY (Or.inr hs) h3
+
+/-- what the loop accepts is always matched by the documented rule (both variants, every pattern) -/
+theorem pathmatch_sound (fx real : Bool) (P Y : Str) (hP : NUL ∉ P) (hY : NUL ∉ Y)
+    (h : matchStreams fx real P.reverse Y.reverse = some true) : SpecMatch real P Y := by
+  rw [matchStreams_eq fx real _ _ (by simpa using hY)] at h
+  have hb : (mC fx real P.reverse Y.reverse || restAny fx real P.reverse Y.reverse) = true := by simpa using h
+  have hPr : NUL ∉ P.reverse := by simpa using hP
+  have key : ∀ q : Str, NUL ∉ q → mC fx real P.reverse q = true →
+      ∃ pre mid, q.reverse = pre ++ mid ∧ (pre = [] ∨ (real = false ∧ pre.getLast? = some '/')) ∧ Glob P mid := by
+    intro q hq hm
+    obtain ⟨t1, t2, e, hg, he⟩ := mC_sound fx real _ P.reverse q (Nat.le_refl _) hPr hq hm
+    refine ⟨t2.reverse, t1.reverse, by simp [e], (endOk_reverse real t2.reverse).1 (by simpa using he), ?_⟩
+    exact (glob_reverse_iff P t1.reverse).1 (by simpa using hg)
+  simp only [Bool.or_eq_true, restAny, List.any_eq_true] at hb
+  rcases hb with h | ⟨q, hq, h⟩
+  · obtain ⟨pre, mid, e, hpre, hg⟩ := key Y.reverse (by simpa using hY) h
+    exact ⟨pre, mid, [], by simpa using e, Or.inl rfl, hpre, hg⟩
+  · obtain ⟨a, ea⟩ := (mem_afterSeps _ _).1 hq
+    have hqn : NUL ∉ q := by
+      intro hm
+      have : NUL ∈ Y.reverse := by rw [ea]; simp [hm]
+      exact hY (by simpa using this)
+    obtain ⟨pre, mid, e, hpre, hg⟩ := key q hqn h
+    refine ⟨pre, mid, '/' :: a.reverse, ?_, Or.inr rfl, hpre, hg⟩
+    have := congrArg List.reverse ea
+    simp only [List.reverse_reverse, List.reverse_append, List.reverse_cons] at this
+    rw [this, e]
+    simp
+
+/-- **C31 `pathmatch_eq_spec`, whole function**: for every pattern, path, base path, file mode and syntax inside the
+    documented domain, the repaired `PathMatch::match` decides exactly the documented rule -/
+theorem pathMatch_eq_spec (syn : Syntax) (mode : Filemode) (pattern path base : Str)
+    (hp : CanonDomain (rawPattern syn pattern base).1 (rawPattern syn pattern base).2 = true)
+    (hx : CanonDomain (rawPath syn path base).1 (rawPath syn path base).2 = true)
+    (h3 : noTripleStar (canonPattern syn pattern base) = true) :
+    pathMatch .fixed syn mode pattern path base = true ↔ PathMatchSpec syn mode pattern path base := by
+  unfold pathMatch PathMatchSpec
+  by_cases he : pattern = []
+  · subst he; simp
+  · have he' : pattern.isEmpty = false := by cases pattern <;> simp_all
+    simp only [he', Bool.false_eq_true, if_false, ne_eq, he, not_false_eq_true, true_and]
+    by_cases hs : (pattern == ['*'] || pattern == ['*', '*']) = true
+    · simp only [hs, if_true, true_iff]
+      right
+      simp only [Bool.or_eq_true, beq_iff_eq] at hs
+      have hreal : isReal pattern = false := by rcases hs with h | h <;> subst h <;> decide
+      have hdm : dirMismatch syn mode pattern = false := by
+        rcases hs with h | h <;> subst h <;> cases syn <;> cases mode <;> decide
+      have hrel : isRelativePattern pattern = false := by rcases hs with h | h <;> subst h <;> decide
+      rw [hreal, hdm]
+      simp only [Bool.false_eq_true, if_false, canonPattern, hrel]
+      rcases hs with h | h
+      · subst h; rw [canonOf_star]; exact specMatch_star _
+      · subst h; rw [canonOf_sstar]; exact specMatch_sstar _
+    · simp only [hs, Bool.false_eq_true, if_false]
+      have hdmdef : (issep syn (pattern.getLastD NUL) && mode != .directory) = dirMismatch syn mode pattern := rfl
+      rw [hdmdef]
+      by_cases hf : (!dirMismatch syn mode pattern && pattern == path) = true
+      · simp only [hf, if_true, true_iff]
+        left
+        simpa using hf
+      · simp only [hf, Bool.false_eq_true, if_false]
+        have hfast : ¬ (dirMismatch syn mode pattern = false ∧ pattern = path) := by
+          intro h; apply hf; rw [h.1]; simp [h.2]
+        have hS := fromPattern_stream syn pattern base hp
+        have hT := fromPath_stream syn path base hx
+        have hPn : NUL ∉ canonPattern syn pattern base := by
+          have := stream_no_nul .fixed (fromPattern .fixed syn pattern base)
+          rw [hS] at this; simpa using this
+        have hXn : NUL ∉ canonPath syn path base := by
+          have := stream_no_nul .fixed (fromPath .fixed syn path base)
+          rw [hT] at this; simpa using this
+        rw [hS, hT]
+        have hreal : (isAbsolute pattern || isRelativePattern pattern) = isReal pattern := rfl
+        rw [hreal]
+        -- the path side: the whole path, or its parent directory
+        generalize hY : (if dirMismatch syn mode pattern = true then parentOf (canonPath syn path base) else canonPath syn path base) = Y
+        have hYn : NUL ∉ Y := by
+          rw [← hY]; split
+          · exact parentOf_no_nul _ hXn
+          · exact hXn
+        have hT' : (if dirMismatch syn mode pattern = true then skipLast Variant.fixed.dirsep (canonPath syn path base).reverse
+            else (canonPath syn path base).reverse) = Y.reverse := by
+          rw [← hY]
+          split
+          · exact skipLast_reverse _ hXn
+          · rfl
+        rw [hT']
+        have hfx : Variant.fixed.star = true := rfl
+        rw [hfx, matchStreams_eq true _ _ _ (by simpa using hYn)]
+        simp only [Option.getD_some]
+        rw [search_iff_spec true (isReal pattern) _ Y hPn hYn (Or.inl rfl) h3]
+        constructor
+        · intro h; exact Or.inr h
+        · rintro (h | h)
+          · exact absurd h hfast
+          · exact h
+
+
+/-- the executable form of the rules used by the check (`spec` op of the driver) decides the documented rule -/
+theorem pathMatchSpecB_iff (syn : Syntax) (mode : Filemode) (pattern path base : Str) :
+    pathMatchSpecB syn mode pattern path base = true ↔ PathMatchSpec syn mode pattern path base := by
+  unfold pathMatchSpecB PathMatchSpec
+  simp only [Bool.and_eq_true, Bool.not_eq_true', List.isEmpty_eq_false_iff, Bool.or_eq_true, beq_iff_eq,
+    specMatchB_iff, ne_eq]
+
+/-- before the repair (C31-3): a star followed (reading backwards) by `?` found no backtrack position -/
+theorem pathmatch_star_counterexample_before_repair :
+    pathMatch .old .unix .regular "a?*".toList "abc".toList [] = false ∧
+    pathMatchSpecB .unix .regular "a?*".toList "abc".toList [] = true ∧
+    pathMatch .fixed .unix .regular "a?*".toList "abc".toList [] = true := by decide
+
+/-- before the repair (C31-4): a directory pattern ending in `*` also matched regular files of the directory itself -/
+theorem pathmatch_dirpattern_counterexample_before_repair :
+    pathMatch .old .unix .regular "build/*/".toList "build/top.cpp".toList "/base".toList = true ∧
+    pathMatchSpecB .unix .regular "build/*/".toList "build/top.cpp".toList "/base".toList = false ∧
+    pathMatch .fixed .unix .regular "build/*/".toList "build/top.cpp".toList "/base".toList = false := by decide
+
+/-! the hypotheses are met by ordinary inputs, and the documented rule distinguishes them -/
+example : MatchOk .fixed .unix .regular "src/*.cpp".toList "src/a.cpp".toList "/base".toList = true := by decide
+example : pathMatch .fixed .unix .regular "src/*.cpp".toList "src/a.cpp".toList "/base".toList = true := by decide
+example : pathMatch .fixed .unix .regular "src/*.cpp".toList "src/sub/a.cpp".toList "/base".toList = false := by decide
+example : pathMatch .fixed .unix .regular "src/**/a.cpp".toList "./src/x/../sub//a.cpp".toList "/base".toList = true := by decide
+example : noTripleStar "src/**/*.c".toList = true ∧ starOkR "src/**/*.c".toList.reverse = true := by decide
+example : starOkR "a?*".toList.reverse = false := by decide
+
+end Cppcheck.PathMatch
+
 namespace Cppcheck.PathCanon
+open Cppcheck.Wire
 
-/-- the iterator loses the separator at a double separator inside a path -/
+/-! ## `PathMatch::PathIterator` and `simplifyPath` -/
+
+/-- **`pathiter_eq_canon`**: for every pair of strings and both syntaxes the repaired iterator reads the documented
+    canonical form of `a`, separator, `b` (`/./`, `/dir/../`, `//` collapsed, trailing separators removed, the root kept,
+    `..` at the root removed), inside the documented domain: the root is empty or ends with a separator (excludes the
+    windows forms `C:dir`, `//.` the header lists as unsupported) and, without a root, no `..` climbs above the start -/
+theorem pathiter_eq_canon (syn : Syntax) (a b : Str)
+    (h : CanonDomain (rawOf syn a b).1 (rawOf syn a b).2 = true) :
+    (Iter.mk' .fixed syn a b).read .fixed = canonOf syn a b :=
+  iter_read_eq_canon syn a b h
+
+/-- before the repair (C31-1): the separator at a double separator inside a path was lost -/
 theorem pathiter_eq_canon_counterexample_dsep :
-    ¬ (((Iter.mk' .old .unix "/a//x".toList []).read .old) = canonOf .unix "/a//x".toList []) := by decide
+    ¬ (((Iter.mk' .old .unix "/a//x".toList []).read .old) = canonOf .unix "/a//x".toList []) ∧
+    (Iter.mk' .old .unix "/a//x".toList []).read .old = "/ax".toList ∧
+    (Iter.mk' .old .unix "/".toList "x".toList).read .old = "x".toList := by decide
 
-/-- `..` directly behind the root consumes the root -/
+/-- before the repair (C31-2): `..` directly behind the root consumed the root -/
 theorem pathiter_eq_canon_counterexample_rootdd :
-    ¬ (((Iter.mk' .old .unix "/../x".toList []).read .old) = canonOf .unix "/../x".toList []) := by decide
+    ¬ (((Iter.mk' .old .unix "/../x".toList []).read .old) = canonOf .unix "/../x".toList []) ∧
+    (Iter.mk' .old .unix "/../x".toList []).read .old = "x".toList := by decide
 
+/-- outside the documented domain the statement is false also for the repaired code: a relative path that climbs
+    above its start (no documented canonical form) -/
+theorem pathiter_eq_canon_counterexample_relative_escape :
+    ¬ (((Iter.mk' .fixed .unix "../../x".toList []).read .fixed) = canonOf .unix "../../x".toList []) ∧
+    CanonDomain (rawOf .unix "../../x".toList []).1 (rawOf .unix "../../x".toList []).2 = false := by decide
+
+example : CanonDomain (rawOf .unix "/base/./x/..".toList "a//../b/".toList).1 (rawOf .unix "/base/./x/..".toList "a//../b/".toList).2 = true := by
+  decide
+example : (Iter.mk' .fixed .unix "/base/./x/..".toList "a//../b/".toList).read .fixed = "/base/b".toList := by decide
+example : CanonDomain (rawOf .windows "C:\\Program Files\\".toList "..".toList).1 (rawOf .windows "C:\\Program Files\\".toList "..".toList).2 = true := by
+  decide
+example : CanonDomain (rawOf .unix "src/../lib".toList []).1 (rawOf .unix "src/../lib".toList []).2 = true := by decide
+
+/-- **`simplifyPath_idempotent` is false of the code** (C31-5, externals/simplecpp): at `pos == 0` the `size_t`
+    expressions wrap -/
 theorem simplifyPath_idempotent_counterexample :
-    ¬ (simplifyPath (simplifyPath "/a/../../a/../a".toList) = simplifyPath "/a/../../a/../a".toList) := by decide
+    ¬ (simplifyPath (simplifyPath "/a/../../a/../a".toList) = simplifyPath "/a/../../a/../a".toList) ∧
+    simplifyPath "/a/../../a/../a".toList = "/../a/../".toList ∧
+    simplifyPath "/../a/../".toList = "/../".toList := by decide
+
+/-- `simplifyPath` does not give the canonical form when a `..` climbs above the root: the last component is erased -/
+theorem simplifyPath_eq_canon_counterexample :
+    simplifyPath "/a/../../x/y".toList = "/../x/".toList ∧ canon 1 "/a/../../x/y".toList = "/x/y".toList := by decide
 
 end Cppcheck.PathCanon
+
+namespace Cppcheck.FileLister
+open Cppcheck.Wire Cppcheck.PathCanon Cppcheck.PathMatch
+
+/-! ## `FileLister::addFiles` -/
+
+/-- the selection the documentation describes, for an existing start path `root` naming `node` -/
+def selected (ign : Str → Filemode → Bool) (acc : Str → Bool × Lang) (root : Str) (node : Tree) : List (Str × Lang) :=
+  ((allFiles root [] node).filter (fun f => accepted acc root f && !ignoredAlong ign root f)).map
+    (fun f => (f.1, langOf acc root f.1))
+
+/-- **`lister_exact`**: for every directory tree (any depth, any order of the entries), every matcher and every
+    acceptance test, `addFiles` returns no error and the sorted list of exactly the files that are accepted (extension
+    test; not applied to a file given as start path) and not cut off by an ignore pattern on the way down -/
+theorem lister_exact (ign : Str → Filemode → Bool) (acc : Str → Bool × Lang) (path : Str) (node : Tree)
+    (hp : path ≠ []) :
+    addFiles ign acc path (some node) = ("", sortFiles (selected ign acc (correctedPath path) node)) := by
+  have : path.isEmpty = false := by cases path <;> simp_all
+  simp only [addFiles, this, Bool.false_eq_true, if_false, selected, collectPath_eq]
+
+/-- the listing is a permutation of the selection … -/
+theorem lister_perm (ign : Str → Filemode → Bool) (acc : Str → Bool × Lang) (path : Str) (node : Tree) (hp : path ≠ []) :
+    (addFiles ign acc path (some node)).2.Perm (selected ign acc (correctedPath path) node) := by
+  rw [lister_exact ign acc path node hp]; exact sortFiles_perm _
+
+/-- … without duplicates (for a well-formed tree: sibling names differ, no separator inside a name) … -/
+theorem lister_nodup (ign : Str → Filemode → Bool) (acc : Str → Bool × Lang) (path : Str) (node : Tree) (hp : path ≠ [])
+    (hw : node.wf = true) : ((addFiles ign acc path (some node)).2.map (·.1)).Nodup := by
+  have hperm := (lister_perm ign acc path node hp).map (·.1)
+  refine hperm.nodup_iff.2 ?_
+  simp only [selected, List.map_map]
+  have hsub : (((allFiles (correctedPath path) [] node).filter
+      (fun f => accepted acc (correctedPath path) f && !ignoredAlong ign (correctedPath path) f)).map (·.1)).Sublist
+      ((allFiles (correctedPath path) [] node).map (·.1)) := List.Sublist.map _ List.filter_sublist
+  exact (nodup_allFiles (correctedPath path) [] node hw).sublist hsub
+
+/-- … and strictly ascending in the order of `std::string::operator<` -/
+theorem lister_sorted (ign : Str → Filemode → Bool) (acc : Str → Bool × Lang) (path : Str) (node : Tree) (hp : path ≠ [])
+    (hw : node.wf = true) : ((addFiles ign acc path (some node)).2.map (·.1)).Pairwise (fun a b => strLt a b = true) := by
+  have hnd := lister_nodup ign acc path node hp hw
+  rw [lister_exact ign acc path node hp] at hnd ⊢
+  have hs := sortFiles_sorted (selected ign acc (correctedPath path) node)
+  have hs' : ((sortFiles (selected ign acc (correctedPath path) node)).map (·.1)).Pairwise
+      (fun a b => strLt b a = false) := by
+    rw [List.pairwise_map]
+    exact hs.imp (fun h => by simpa [pathLe] using h)
+  have := hs'.and hnd
+  refine this.imp ?_
+  rintro a b ⟨h1, h2⟩
+  rcases strLt_trichotomy a b with h | h | h
+  · exact h
+  · exact absurd h h2
+  · rw [h1] at h; cases h
+
+/-- an empty path is an error, a path that does not exist yields nothing -/
+theorem lister_no_path (ign : Str → Filemode → Bool) (acc : Str → Bool × Lang) (node : Option Tree) :
+    addFiles ign acc [] node = ("no path specified", []) := rfl
+
+theorem lister_missing (ign : Str → Filemode → Bool) (acc : Str → Bool × Lang) (path : Str) (hp : path ≠ []) :
+    addFiles ign acc path none = ("", []) := by
+  have : path.isEmpty = false := by cases path <;> simp_all
+  simp [addFiles, this]
+
+example : (Tree.dir [] [.file "b.cpp".toList, .dir "sub".toList [.file "a.c".toList, .file "n.txt".toList], .file "m.h".toList]).wf = true := by
+  decide
+example : (addFiles (pathMatchList .fixed .unix ["sub/".toList] "/base".toList) (acceptFile []) "src/".toList
+    (some (.dir [] [.file "b.cpp".toList, .dir "sub".toList [.file "a.c".toList], .dir "lib".toList [.file "z.c".toList, .file "n.txt".toList]]))).2
+    = [("src/b.cpp".toList, .cpp), ("src/lib/z.c".toList, .c)] := by decide
+
+end Cppcheck.FileLister
